@@ -564,7 +564,9 @@ def judge_c10(rec, barrier_only=False):
                 if oc[0] == 'killed':
                     return exc is not None and exc[0] == 'KilledError'
                 return False
-            if not any(matches(f) for f in fails):
+            if rec['case'].get('race') and exc == ['ProgError', 'cb-fails']:
+                pass  # (the callback that fails in the same loop iteration got there first: that is the error then)
+            elif not any(matches(f) for f in fails):
                 out.append(V('wrong-failure', 'wrong-failure:%s:%s' % (fails[0][1][0], shape),
                              'workchain EXCEPTED with %s, awaited failures were %s' % (exc, fails)))
             elif len(fails) > 1 and not matches(fails[0]) and not any(kind == 'oldchild' for _k, _i, kind, _h in st['reg']):
@@ -576,6 +578,10 @@ def judge_c10(rec, barrier_only=False):
                     out.append(V('not-first-failure', 'not-first-failure:%s' % shape,
                                  'workchain EXCEPTED with %s but the first failure was %s' % (exc, fails[0])))
         break
+    # whatever fails, and in whatever order, stepping the work chain returns normally
+    if rec.get('task') and rec['task'][0] == 'exception':
+        out.append(V('stepping-raised', 'stepping-raised:%s:%s' % (rec['task'][1][0], shape), 'step_until_terminated() of the work chain raised %s (final state %s, acts %s)' % (
+            rec['task'][1], rec['final']['state'] if rec['final'] else None, pat)))
     # the completion of an awaited item is taken in by the barrier whatever came before it: it does not blow up in the event loop
     for err in rec.get('loop_errors') or ():
         if '_awaitable_done' in err['message'] or 'awaitable' in str(err['exception']):
